@@ -37,6 +37,20 @@ func runC03(c *core.Ctx) {
 	c.Floor("C03.mode", c.Count("C03.mode"), 300, "mutator call sites in live Run methods")
 	c.Floor("C03.atomic", c.Count("C03.atomic"), 37, "live Run methods")
 	c.Floor("C03.nonce", c.Count("C03.nonce"), 37, "live Run methods")
+	// no in-place arithmetic on amounts that live inside the state, anywhere in a live handler or
+	// its transaction-package helpers (basicCheck, CalculateCommission, CheckSwap …)
+	nAlias := 0
+	for _, m := range models {
+		k := checkStateAliasing(c, "C03.alias", m.H.TypeName, m.Fn, 3, map[*ssa.Function]bool{})
+		nAlias += k
+		if c.CountKeyPrefix("C03.alias", m.H.TypeName+"/") == 0 {
+			c.OK("C03.alias", m.H.TypeName, m.Fn.Pos(), fmt.Sprintf("%d in-place big.Int operations in the handler and its helpers, none on a state-owned amount", k))
+		}
+	}
+	if fn := c.RunTx(); fn != nil {
+		nAlias += checkStateAliasing(c, "C03.alias", "RunTx", fn, 2, map[*ssa.Function]bool{})
+	}
+	c.Floor("C03.alias", nAlias, 250, "in-place big.Int operations examined")
 	checkNonceWriters(c, "C03.noncewriters")
 	checkFailFee(c, "C03.failfee", "C03.prerun")
 }
